@@ -74,6 +74,7 @@ package mat
 //@ ensures wfDense(m) && m.mat.Rows == r && m.mat.Cols == c
 //@ ensures old(m.mat.Rows) != 0 ==> sameSlice(m.mat.Data, old(m.mat.Data)) && m.mat.Stride == old(m.mat.Stride)
 //@ ensures old(m.mat.Rows) == 0 ==> m.mat.Stride == c && len(m.mat.Data) == r*c
+//@ ensures old(m.mat.Rows) == 0 ==> fresh(m.mat.Data) || (m.mat.Data.rid == old(m.mat.Data).rid && m.mat.Data.off == old(m.mat.Data).off && r*c <= cap(old(m.mat.Data)))
 
 //@ func Dense.reuseAsZeroed props: C04 C07(safety)
 //@ requires wfDense(m) && r >= 0 && c >= 0
@@ -84,6 +85,7 @@ package mat
 //@ ensures wfDense(m) && m.mat.Rows == r && m.mat.Cols == c
 //@ ensures old(m.mat.Rows) != 0 ==> sameSlice(m.mat.Data, old(m.mat.Data)) && m.mat.Stride == old(m.mat.Stride)
 //@ ensures old(m.mat.Rows) == 0 ==> m.mat.Stride == c && len(m.mat.Data) == r*c
+//@ ensures old(m.mat.Rows) == 0 ==> fresh(m.mat.Data) || (m.mat.Data.rid == old(m.mat.Data).rid && m.mat.Data.off == old(m.mat.Data).off && r*c <= cap(old(m.mat.Data)))
 
 // Slice / slice: the result is a view of the same backing array: cell (p, q)
 // of the view is cell (i+p, j+q) of the receiver.
@@ -172,6 +174,7 @@ package mat
 //@ requires wfVD(v) && hasType(a, *VecDense) && hasType(b, *VecDense) && wfVD(unbox(a, *VecDense)) && wfVD(unbox(b, *VecDense))
 //@ option may-panic
 //@ modifies v
+//@ writes v.mat.Data[k] for k in 0..unbox(a, *VecDense).mat.N if v.mat.Inc == 0 ; v.mat.Data[i*v.mat.Inc] for i in 0..v.mat.N
 //@ ensures forall(i, 0, old(unbox(a, *VecDense).mat.N), same(v.mat.Data[i*v.mat.Inc],
 //@     old(unbox(a, *VecDense).mat.Data[i*unbox(a, *VecDense).mat.Inc]) / old(unbox(b, *VecDense).mat.Data[i*unbox(b, *VecDense).mat.Inc])))
 
@@ -187,6 +190,7 @@ package mat
 //@ requires wfDense(m) && headerSize == 40 && sizeFloat64 == 8
 //@ option may-panic
 //@ modifies m
+//@ writes m.mat.Data[k] for k in 0..cap(m.mat.Data)
 //@ ensures result == nil ==> wfDense(m) && m.mat.Rows > 0 && m.mat.Cols > 0 && m.mat.Rows*m.mat.Cols == len(m.mat.Data) && len(data) == 40+8*m.mat.Rows*m.mat.Cols
 
 //@ func VecDense.UnmarshalBinary props: C16
@@ -194,6 +198,7 @@ package mat
 //@ requires wfVD(v) && headerSize == 40 && sizeFloat64 == 8
 //@ option may-panic
 //@ modifies v
+//@ writes v.mat.Data[k] for k in 0..cap(v.mat.Data)
 //@ ensures result == nil ==> wfVD(v) && v.mat.N > 0 && v.mat.N == len(v.mat.Data) && len(data) == 40+8*v.mat.N
 
 //@ func Dense.UnmarshalBinaryFrom props: C16
@@ -201,6 +206,7 @@ package mat
 //@ requires wfDense(m) && headerSize == 40 && sizeFloat64 == 8
 //@ option may-panic
 //@ modifies m
+//@ writes m.mat.Data[k] for k in 0..cap(m.mat.Data)
 //@ ensures result1 == nil ==> wfDense(m) && m.mat.Rows > 0 && m.mat.Cols > 0 && m.mat.Rows*m.mat.Cols == len(m.mat.Data)
 //@ loop 1: invariant n <= 40+8*it && n >= 0
 
@@ -210,5 +216,432 @@ package mat
 //@ requires wfVD(v) && headerSize == 40 && sizeFloat64 == 8
 //@ option may-panic
 //@ modifies v
+//@ writes v.mat.Data[k] for k in 0..cap(v.mat.Data)
 //@ ensures result1 == nil ==> wfVD(v) && v.mat.N > 0 && v.mat.N == len(v.mat.Data)
 //@ loop 1: invariant n <= 40+8*it && n >= 0
+
+// ---- VecDense element-wise methods, continued (C04 / C05 / C07) -------------------
+
+// AddVec, SubVec, MulElemVec with *VecDense operands. A normal return means:
+// the operands had equal lengths, the receiver has that length (an empty
+// receiver was sized, a sized receiver kept its storage and increment), the
+// receiver shares no element with an operand that is not the receiver itself
+// (partial overlap panics), only the receiver's elements were written, and the
+// receiver holds the element-wise result of the operands' values at entry.
+//
+// The value clauses of AddVec/SubVec are [real] (the kernels compute 1*b+a and
+// -1*b+a) and are limited by the contracts of the strided kernels AxpyIncTo,
+// which state their result only for operands in separate slices: unit
+// increments are covered for every aliasing (receiver identical to an operand
+// included); other increments only when the receiver's slice is disjoint from
+// the operands' slices. MulElemVec is plain Go and is covered bit-for-bit for
+// all increments and aliasings.
+
+//@ func VecDense.AddVec props: C04 C05 C07(safety)
+//@ option dead-return-ok
+//@ let av = unbox(a, *VecDense)
+//@ let bv = unbox(b, *VecDense)
+//@ requires wfVD(v) && hasType(a, *VecDense) && hasType(b, *VecDense) && wfVD(av) && wfVD(bv)
+//@ option may-panic
+//@ modifies v
+//@ writes v.mat.Data[k] for k in 0..av.mat.N if v.mat.Inc == 0 ; v.mat.Data[i*v.mat.Inc] for i in 0..v.mat.N
+//@ ensures wfVD(v) && v.mat.N == old(av.mat.N) && old(av.mat.N) == old(bv.mat.N)
+//@ ensures old(v.mat.Inc) != 0 ==> sameSlice(v.mat.Data, old(v.mat.Data)) && v.mat.Inc == old(v.mat.Inc) && v.mat.N == old(v.mat.N)
+//@ ensures v != av ==> noCommonVec(v.mat, av.mat)
+//@ ensures v != bv ==> noCommonVec(v.mat, bv.mat)
+//@ ensures [real] v.mat.Inc == 1 && old(av.mat.Inc) == 1 && old(bv.mat.Inc) == 1 ==>
+//@     forall(i, 0, old(av.mat.N), v.mat.Data[i] == old(av.mat.Data[i]) + old(bv.mat.Data[i]))
+//@ ensures [real] disjoint(v.mat.Data, old(av.mat.Data)) && disjoint(v.mat.Data, old(bv.mat.Data)) ==>
+//@     forall(i, 0, old(av.mat.N), v.mat.Data[i*v.mat.Inc] == old(av.mat.Data[i*av.mat.Inc]) + old(bv.mat.Data[i*bv.mat.Inc]))
+
+//@ func VecDense.SubVec props: C04 C05 C07(safety)
+//@ option dead-return-ok
+//@ let av = unbox(a, *VecDense)
+//@ let bv = unbox(b, *VecDense)
+//@ requires wfVD(v) && hasType(a, *VecDense) && hasType(b, *VecDense) && wfVD(av) && wfVD(bv)
+//@ option may-panic
+//@ modifies v
+//@ writes v.mat.Data[k] for k in 0..av.mat.N if v.mat.Inc == 0 ; v.mat.Data[i*v.mat.Inc] for i in 0..v.mat.N
+//@ ensures wfVD(v) && v.mat.N == old(av.mat.N) && old(av.mat.N) == old(bv.mat.N)
+//@ ensures old(v.mat.Inc) != 0 ==> sameSlice(v.mat.Data, old(v.mat.Data)) && v.mat.Inc == old(v.mat.Inc) && v.mat.N == old(v.mat.N)
+//@ ensures v != av ==> noCommonVec(v.mat, av.mat)
+//@ ensures v != bv ==> noCommonVec(v.mat, bv.mat)
+//@ ensures [real] v.mat.Inc == 1 && old(av.mat.Inc) == 1 && old(bv.mat.Inc) == 1 ==>
+//@     forall(i, 0, old(av.mat.N), v.mat.Data[i] == old(av.mat.Data[i]) - old(bv.mat.Data[i]))
+//@ ensures [real] disjoint(v.mat.Data, old(av.mat.Data)) && disjoint(v.mat.Data, old(bv.mat.Data)) ==>
+//@     forall(i, 0, old(av.mat.N), v.mat.Data[i*v.mat.Inc] == old(av.mat.Data[i*av.mat.Inc]) - old(bv.mat.Data[i*bv.mat.Inc]))
+
+//@ func VecDense.MulElemVec props: C04 C05 C07(safety)
+//@ option dead-return-ok
+//@ let av = unbox(a, *VecDense)
+//@ let bv = unbox(b, *VecDense)
+//@ requires wfVD(v) && hasType(a, *VecDense) && hasType(b, *VecDense) && wfVD(av) && wfVD(bv)
+//@ option may-panic
+//@ modifies v
+//@ writes v.mat.Data[k] for k in 0..av.mat.N if v.mat.Inc == 0 ; v.mat.Data[i*v.mat.Inc] for i in 0..v.mat.N
+//@ ensures wfVD(v) && v.mat.N == old(av.mat.N) && old(av.mat.N) == old(bv.mat.N)
+//@ ensures old(v.mat.Inc) != 0 ==> sameSlice(v.mat.Data, old(v.mat.Data)) && v.mat.Inc == old(v.mat.Inc) && v.mat.N == old(v.mat.N)
+//@ ensures v != av ==> noCommonVec(v.mat, av.mat)
+//@ ensures v != bv ==> noCommonVec(v.mat, bv.mat)
+//@ ensures forall(i, 0, old(av.mat.N), same(v.mat.Data[i*v.mat.Inc], old(av.mat.Data[i*av.mat.Inc]) * old(bv.mat.Data[i*bv.mat.Inc])))
+
+// ScaleVec with a *VecDense operand: v = alpha*a. The receiver may be the
+// operand (scaled in place, any increment). Otherwise as for AddVec; the value
+// clause for non-unit increments is limited to separate slices by the contract
+// of the kernel ScalIncTo.
+
+//@ func VecDense.ScaleVec props: C04 C05 C07(safety)
+//@ option dead-return-ok
+//@ let av = unbox(a, *VecDense)
+//@ requires wfVD(v) && hasType(a, *VecDense) && wfVD(av)
+//@ option may-panic
+//@ modifies v
+//@ writes v.mat.Data[k] for k in 0..av.mat.N if v.mat.Inc == 0 ; v.mat.Data[i*v.mat.Inc] for i in 0..v.mat.N
+//@ ensures wfVD(v) && v.mat.N == old(av.mat.N)
+//@ ensures old(v.mat.Inc) != 0 ==> sameSlice(v.mat.Data, old(v.mat.Data)) && v.mat.Inc == old(v.mat.Inc) && v.mat.N == old(v.mat.N)
+//@ ensures v != av ==> noCommonVec(v.mat, av.mat)
+//@ ensures [real] v == av ==> forall(i, 0, old(av.mat.N), v.mat.Data[i*v.mat.Inc] == alpha * old(av.mat.Data[i*av.mat.Inc]))
+//@ ensures [real] v.mat.Inc == 1 && old(av.mat.Inc) == 1 ==> forall(i, 0, old(av.mat.N), v.mat.Data[i] == alpha * old(av.mat.Data[i]))
+//@ ensures [real] disjoint(v.mat.Data, old(av.mat.Data)) ==> forall(i, 0, old(av.mat.N), v.mat.Data[i*v.mat.Inc] == alpha * old(av.mat.Data[i*av.mat.Inc]))
+
+// FINDING (CopyVec, not under contract): the contract written from the
+// documentation ("similar to the built-in copy; it copies as much as the overlap
+// between the two vectors and returns the number of elements it copied": no
+// panic, min(len) elements of a's values at entry) is violated twice:
+//  (1) call.pre valid(blas64.Dcopy) sat: an empty receiver or an empty operand
+//      (Inc == 0) reaches Dcopy with a zero increment and panics with the blas
+//      string "blas: zero y index increment" instead of returning 0 (Dense.Copy
+//      returns 0, 0);
+//  (2) post sat: CopyVec has no overlap check; a source overlapping the
+//      destination with a different increment is overwritten while it is read
+//      (src cells 0,1,2,3 into dst cells 0,2,4,6 gives 0 1 1 3).
+// With "v.mat.Inc != 0 && av.mat.Inc != 0" added to requires and the value
+// clause guarded by "v == av || disjoint(v.mat.Data, av.mat.Data)" the block
+// verifies (21 obligations); it is left out so that the defects stay visible.
+//
+//  func VecDense.CopyVec props: C04 C05 C07(safety)
+//  option dead-return-ok
+//  let av = unbox(a, *VecDense)
+//  requires wfVD(v) && hasType(a, *VecDense) && wfVD(av)
+//  writes v.mat.Data[i*v.mat.Inc] for i in 0..min(v.mat.N, av.mat.N)
+//  ensures result == min(old(v.mat.N), old(av.mat.N))
+//  ensures forall(i, 0, result, same(v.mat.Data[i*v.mat.Inc], old(av.mat.Data[i*av.mat.Inc])))
+
+// AddScaledVec with *VecDense operands: v = a + alpha*b, for a sized receiver.
+//
+// FINDING (empty receiver excluded by "v.mat.Inc != 0"): AddScaledVec calls
+// v.checkOverlap(amat) BEFORE v.reuseAsNonZeroed(ar) (AddVec etc. size first).
+// For an empty receiver this violates the precondition of checkOverlap
+// (call.pre wfVec(v.mat) sat: Inc == 0), and it matters when the emptied
+// receiver (or an emptied operand: "av.mat.Inc != 0 && bv.mat.Inc != 0") still
+// holds storage inside the other's array (Reset() on a view):
+// either checkOverlap faults with "integer divide by zero" (off%inc, inc == 0),
+// or the overlap test sees a zero-length receiver, passes, and the operand a is
+// then overwritten silently. Without the restriction the verifier reports
+// call.pre#7 and call.pre#9 [v.checkOverlap: v != nil && wfVec(v.mat) && wfVec(a)] sat.
+//
+// Value clauses ([real]) as for AddVec: unit increments for every aliasing
+// (alpha == 0 copies through Dcopy, whose contract needs separate slices, unless
+// v is a); all increments for separate slices; the receiver as first operand for
+// all increments when alpha is not +-1 (those delegate to AddVec/SubVec).
+
+// sepSlices: the two slices lie in different allocations or one ends before the other starts.
+//@ spec sepSlices(d []float64, s []float64) bool = d.rid != s.rid || d.off+len(d) <= s.off || s.off+len(s) <= d.off
+
+//@ func VecDense.AddScaledVec props: C04 C05 C07(safety)
+//@ option dead-return-ok
+//@ option timeout=40000
+//@ let av = unbox(a, *VecDense)
+//@ let bv = unbox(b, *VecDense)
+//@ requires wfVD(v) && hasType(a, *VecDense) && hasType(b, *VecDense) && wfVD(av) && wfVD(bv) && v.mat.Inc != 0 && av.mat.Inc != 0 && bv.mat.Inc != 0
+//@ option may-panic
+//@ modifies v
+//@ writes v.mat.Data[k] for k in 0..av.mat.N if v.mat.Inc == 0 ; v.mat.Data[i*v.mat.Inc] for i in 0..v.mat.N
+//@ ensures wfVD(v) && v.mat.N == old(av.mat.N) && old(av.mat.N) == old(bv.mat.N)
+//@ ensures old(v.mat.Inc) != 0 ==> sameSlice(v.mat.Data, old(v.mat.Data)) && v.mat.Inc == old(v.mat.Inc) && v.mat.N == old(v.mat.N)
+//@ ensures v != av ==> noCommonVec(v.mat, av.mat)
+//@ ensures v != bv ==> noCommonVec(v.mat, bv.mat)
+//@ ensures v != av && v.mat.Inc == 1 && old(av.mat.Inc) == 1 ==> sepSlices(v.mat.Data, old(av.mat.Data))
+//@ ensures v != bv && v.mat.Inc == 1 && old(bv.mat.Inc) == 1 ==> sepSlices(v.mat.Data, old(bv.mat.Data))
+//@ ensures [real] v.mat.Inc == 1 && old(av.mat.Inc) == 1 && old(bv.mat.Inc) == 1 && (alpha != 0 || v == av) &&
+//@     (v == av || sepSlices(v.mat.Data, old(av.mat.Data))) && (v == bv || sepSlices(v.mat.Data, old(bv.mat.Data))) ==>
+//@     forall(i, 0, old(av.mat.N), v.mat.Data[i] == old(av.mat.Data[i]) + alpha*old(bv.mat.Data[i]))
+//@ ensures [real] disjoint(v.mat.Data, old(av.mat.Data)) && disjoint(v.mat.Data, old(bv.mat.Data)) ==>
+//@     forall(i, 0, old(av.mat.N), v.mat.Data[i*v.mat.Inc] == old(av.mat.Data[i*av.mat.Inc]) + alpha*old(bv.mat.Data[i*bv.mat.Inc]))
+//@ ensures [real] alpha != 1 && alpha != -1 && v == av && (v == bv || disjoint(v.mat.Data, old(bv.mat.Data))) ==>
+//@     forall(i, 0, old(av.mat.N), v.mat.Data[i*v.mat.Inc] == old(av.mat.Data[i*av.mat.Inc]) + alpha*old(bv.mat.Data[i*bv.mat.Inc]))
+
+// ---- Dense element-wise methods (C04 / C05 / C07) ------------------------------------
+
+// Add, Sub, MulElem, DivElem with *Dense operands and a sized receiver. A normal
+// return means: the operands had equal shapes, the receiver has that shape and
+// kept its storage and stride, the receiver shares no element with an operand
+// that is not the receiver itself (partial overlap panics in checkOverlap), and
+// only cells of the receiver's window were written (stride padding untouched).
+// No access faults for any strides and any aliasing.
+//
+// Restrictions (verifier, not code):
+//  - "m.mat.Rows != 0": Dense.reuseAsNonZeroed is used by contract, and a
+//    contract cannot say that the new data slice of an emptied receiver is
+//    freshly allocated, so the writes clause cannot be proved for that case.
+//  - the element-wise value clause
+//      forall(i, 0, old(ad.mat.Rows), forall(j, 0, old(ad.mat.Cols), same(m.mat.Data[i*m.mat.Stride+j],
+//          old(ad.mat.Data[i*ad.mat.Stride+j]) OP old(bd.mat.Data[i*bd.mat.Stride+j]))))
+//    is NOT established: with row/column loop invariants the inner-loop "keep"
+//    queries (cells of a/b not yet processed are unchanged by the store into m,
+//    via noCommon or m == a) stay undecided (z3 timeout, cvc5 unknown at 120 s).
+//    Restricted to operands in other allocations than the receiver
+//    (m.mat.Data.rid != ad.mat.Data.rid && ... bd ...) the invariants
+//      loop 1: guard ==> forall(r, 0, it, forall(j, 0, ac, same(m[r*mS+j], old(a[r*aS+j]) OP old(b[r*bS+j]))))
+//      loop 2: guard ==> forall(r, 0, ar, r*aS == ja && r*bS == jb && r*mS == jm ==> forall(j, 0, it, ...))
+//              guard ==> forall(r, 0, ar, r*mS < jm ==> forall(j, 0, ac, ...))
+//    pass every Houdini check of the first round and are demoted in the second
+//    (loop 2 init of the last one times out), so that clause is left out too.
+
+//@ func Dense.Add Dense.Sub Dense.MulElem Dense.DivElem props: C04 C05 C07(safety)
+//@ option dead-return-ok
+//@ option may-panic
+//@ option delegate-panics
+//@ let ad = unbox(a, *Dense)
+//@ let bd = unbox(b, *Dense)
+//@ requires wfDense(m) && hasType(a, *Dense) && hasType(b, *Dense) && wfDense(ad) && wfDense(bd) && m.mat.Rows != 0
+//@ modifies m
+//@ writes m.mat.Data[i*m.mat.Stride+j] for i in 0..m.mat.Rows, j in 0..m.mat.Cols
+//@ ensures wfDense(m) && m.mat.Rows == old(ad.mat.Rows) && m.mat.Cols == old(ad.mat.Cols) && old(ad.mat.Rows) == old(bd.mat.Rows) && old(ad.mat.Cols) == old(bd.mat.Cols)
+//@ ensures sameSlice(m.mat.Data, old(m.mat.Data)) && m.mat.Stride == old(m.mat.Stride) && m.mat.Rows == old(m.mat.Rows) && m.mat.Cols == old(m.mat.Cols)
+//@ ensures m != ad ==> noCommon(m.mat, ad.mat)
+//@ ensures m != bd ==> noCommon(m.mat, bd.mat)
+//@ loop 1: invariant ja == it*amat.Stride && jb == it*bmat.Stride && jm == it*m.mat.Stride && it <= ar
+
+// FINDING (Dense.Copy, not under contract): the contract written from the
+// documentation ("similar to the built-in copy; it copies as much as the overlap
+// between the two matrices": the receiver's r x c corner holds a's values at
+// entry) fails for a *Dense operand that overlaps the receiver with a different
+// stride. Copy orders the row copies by the sign of offset(m, a) and never calls
+// checkOverlap on this path:
+//  (1) offset == 0 with different strides: "default: nothing to do", nothing is
+//      copied (post sat; the same clause guarded by m.mat.Stride == ad.mat.Stride
+//      verifies);
+//  (2) offset > 0: rows are copied forwards, a row of the receiver written early
+//      can cover a later row of a (a 3x2 stride 2 at cell 1, receiver 3x2
+//      stride 5 at cell 0: the last row receives a's second row).
+// The value clause restricted to operands in another allocation
+// (m.mat.Data.rid != ad.mat.Data.rid) stays undecided at the merged return
+// (row prefix/suffix invariants are kept for the three copy loops).
+//
+//  func Dense.Copy props: C04 C05 C07(safety)
+//  option dead-return-ok
+//  let ad = unbox(a, *Dense)
+//  requires wfDense(m) && hasType(a, *Dense) && wfDense(ad)
+//  writes m.mat.Data[i*m.mat.Stride+j] for i in 0..min(m.mat.Rows, ad.mat.Rows), j in 0..min(m.mat.Cols, ad.mat.Cols)
+//  ensures m == ad || (r == min(old(m.mat.Rows), old(ad.mat.Rows)) && c == min(old(m.mat.Cols), old(ad.mat.Cols))) || (r == 0 && c == 0)
+//  ensures forall(i, 0, r, forall(j, 0, c, same(m.mat.Data[i*m.mat.Stride+j], old(ad.mat.Data[i*ad.mat.Stride+j]))))
+
+// ---- views (C04 / C07) ---------------------------------------------------------------
+
+// Slice: as slice above, for the exported method (result of dynamic type *Dense).
+
+//@ func Dense.Slice props: C04 C07(safety)
+//@ requires wfDense(m) && m.mat.Rows > 0
+//@ valid 0 <= i && i < m.capRows && 0 <= j && j < m.capCols && i < k && k <= m.capRows && j < l && l <= m.capCols
+//@ panics iff !valid, before-writes
+//@ option delegate-panics
+//@ writes nothing
+//@ ensures hasType(result, *Dense) && wfDense(unbox(result, *Dense))
+//@ ensures unbox(result, *Dense).mat.Rows == k-i && unbox(result, *Dense).mat.Cols == l-j && unbox(result, *Dense).mat.Stride == m.mat.Stride
+//@ ensures unbox(result, *Dense).mat.Data.rid == m.mat.Data.rid && unbox(result, *Dense).mat.Data.off == m.mat.Data.off + i*m.mat.Stride + j
+
+// RowView / ColView: element p of the returned vector is cell (i, p) resp.
+// (p, j) of the receiver, in the same backing array; the index must be in range.
+
+//@ func Dense.RowView props: C04 C07(safety)
+//@ option delegate-panics
+//@ requires wfDense(m)
+//@ valid 0 <= i && i < m.mat.Rows
+//@ panics iff !valid, before-writes
+//@ writes nothing
+//@ ensures hasType(result, *VecDense) && wfVD(unbox(result, *VecDense)) && fresh(unbox(result, *VecDense))
+//@ ensures unbox(result, *VecDense).mat.N == m.mat.Cols && unbox(result, *VecDense).mat.Inc == 1
+//@ ensures unbox(result, *VecDense).mat.Data.rid == m.mat.Data.rid && unbox(result, *VecDense).mat.Data.off == m.mat.Data.off + i*m.mat.Stride
+
+//@ func Dense.ColView props: C04 C07(safety)
+//@ option delegate-panics
+//@ requires wfDense(m)
+//@ valid 0 <= j && j < m.mat.Cols
+//@ panics iff !valid, before-writes
+//@ writes nothing
+//@ ensures hasType(result, *VecDense) && wfVD(unbox(result, *VecDense)) && fresh(unbox(result, *VecDense))
+//@ ensures unbox(result, *VecDense).mat.N == m.mat.Rows && unbox(result, *VecDense).mat.Inc == m.mat.Stride
+//@ ensures unbox(result, *VecDense).mat.Data.rid == m.mat.Data.rid && unbox(result, *VecDense).mat.Data.off == m.mat.Data.off + j
+
+// RawRowView: the slice of row i.
+
+//@ func Dense.RawRowView props: C04 C07(safety)
+//@ requires wfDense(m)
+//@ valid 0 <= i && i < m.mat.Rows
+//@ panics iff !valid, before-writes
+//@ writes nothing
+//@ ensures result.rid == m.mat.Data.rid && result.off == m.mat.Data.off + i*m.mat.Stride && len(result) == m.mat.Cols
+
+// T: the receiver inside a Transpose.
+
+//@ func Dense.T props: C04 C07(safety)
+//@ requires wfDense(m)
+//@ writes nothing
+// (the fields of a struct value boxed in an interface are not modelled by the
+// verifier: "unbox(result, Transpose).Matrix is m" is reported sat, so only
+// the dynamic type is stated)
+//@ ensures hasType(result, Transpose)
+
+// SliceVec / sliceVec: element p of the result is element i+p of the receiver;
+// the slice must lie inside the capacity of the receiver.
+
+//@ func VecDense.sliceVec props: C04 C07(safety)
+//@ requires wfVD(v)
+//@ valid 0 <= i && i < k && v.mat.Inc != 0 && k <= (cap(v.mat.Data)-1)/v.mat.Inc+1
+//@ panics iff !valid, before-writes
+//@ writes nothing
+//@ ensures wfVD(result) && fresh(result) && result.mat.N == k-i && result.mat.Inc == v.mat.Inc
+//@ ensures result.mat.Data.rid == v.mat.Data.rid && result.mat.Data.off == v.mat.Data.off + i*v.mat.Inc
+
+//@ func VecDense.SliceVec props: C04 C07(safety)
+//@ requires wfVD(v)
+//@ valid 0 <= i && i < k && v.mat.Inc != 0 && k <= (cap(v.mat.Data)-1)/v.mat.Inc+1
+//@ panics iff !valid, before-writes
+//@ option delegate-panics
+//@ writes nothing
+//@ ensures hasType(result, *VecDense) && wfVD(unbox(result, *VecDense))
+//@ ensures unbox(result, *VecDense).mat.N == k-i && unbox(result, *VecDense).mat.Inc == v.mat.Inc
+//@ ensures unbox(result, *VecDense).mat.Data.rid == v.mat.Data.rid && unbox(result, *VecDense).mat.Data.off == v.mat.Data.off + i*v.mat.Inc
+
+// ColViewOf / RowViewOf for a *Dense argument: the receiver becomes the view
+// (it must be empty or already have the view's length).
+
+//@ func VecDense.ColViewOf props: C04 C07(safety)
+//@ let md = unbox(m, *Dense)
+//@ requires wfVD(v) && hasType(m, *Dense) && wfDense(md)
+//@ valid 0 <= j && j < md.mat.Cols && (v.mat.Inc == 0 || v.mat.N == md.mat.Rows)
+//@ panics iff !valid, before-writes
+//@ modifies v
+//@ writes nothing
+//@ ensures wfVD(v) && v.mat.N == md.mat.Rows && v.mat.Inc == md.mat.Stride
+//@ ensures v.mat.Data.rid == md.mat.Data.rid && v.mat.Data.off == md.mat.Data.off + j
+
+//@ func VecDense.RowViewOf props: C04 C07(safety)
+//@ let md = unbox(m, *Dense)
+//@ requires wfVD(v) && hasType(m, *Dense) && wfDense(md)
+//@ valid 0 <= i && i < md.mat.Rows && (v.mat.Inc == 0 || v.mat.N == md.mat.Cols)
+//@ panics iff !valid, before-writes
+//@ modifies v
+//@ writes nothing
+//@ ensures wfVD(v) && v.mat.N == md.mat.Cols && v.mat.Inc == 1
+//@ ensures v.mat.Data.rid == md.mat.Data.rid && v.mat.Data.off == md.mat.Data.off + i*md.mat.Stride
+
+// ---- VecDense helpers (C04 / C07) ------------------------------------------------------
+
+// (VecDense.reuseAsNonZeroed is deliberately left without a contract: callers
+// inline it, which keeps the information that the data of an emptied receiver is
+// either its old storage or freshly allocated. A contract cannot express the
+// second case, and the callers' writes clauses then fail:
+// "call.frame f64.ScalUnitaryTo writes dst[k] for k in 0..len(x)" sat.)
+
+//@ func VecDense.IsEmpty props: C04 C07(safety)
+//@ requires v != nil
+//@ writes nothing
+//@ ensures result == (v.mat.Inc == 0)
+
+//@ func VecDense.Len props: C04 C07(safety)
+//@ requires v != nil
+//@ writes nothing
+//@ ensures result == v.mat.N
+
+//@ func VecDense.Dims props: C04 C07(safety)
+//@ requires wfVD(v)
+//@ writes nothing
+//@ ensures r == v.mat.N && c == ite(v.mat.Inc == 0, 0, 1)
+
+//@ func VecDense.Cap props: C04 C07(safety)
+//@ requires wfVD(v)
+//@ writes nothing
+//@ ensures result == ite(v.mat.Inc == 0, 0, (cap(v.mat.Data)-1)/v.mat.Inc+1)
+
+// at is the unchecked accessor: the index range is the caller's obligation.
+
+//@ func VecDense.at props: C04 C07(safety)
+//@ requires wfVD(v) && 0 <= i && i < v.mat.N
+//@ writes nothing
+//@ ensures same(result, v.mat.Data[i*v.mat.Inc])
+
+// (setVec is left without a contract, callers inline the single store. With the block
+//    func VecDense.setVec / requires wfVD(v) && 0 <= i && i < v.mat.N /
+//    writes v.mat.Data[i*v.mat.Inc] / ensures same(v.mat.Data[i*v.mat.Inc], val)
+//  which verifies by itself, the loops of DivElemVec and MulElemVec that call it lose
+//  the receiver's header across iterations: "call.pre v.setVec: wfVD(v) && ..." and
+//  "modifies: only declared heap objects change: H_mat.VecDense.mat.N" are reported sat.)
+
+//@ func VecDense.AtVec props: C04 C07(safety)
+//@ requires wfVD(v)
+//@ valid 0 <= i && i < v.mat.N
+//@ panics iff !valid, before-writes
+//@ writes nothing
+//@ ensures same(result, v.mat.Data[i*v.mat.Inc])
+
+//@ func VecDense.At props: C04 C07(safety)
+//@ requires wfVD(v)
+//@ valid 0 <= i && i < v.mat.N && j == 0
+//@ panics iff !valid, before-writes
+//@ writes nothing
+//@ ensures same(result, v.mat.Data[i*v.mat.Inc])
+
+//@ func VecDense.SetVec props: C04 C07(safety)
+//@ requires wfVD(v)
+//@ valid 0 <= i && i < v.mat.N
+//@ panics iff !valid, before-writes
+//@ writes v.mat.Data[i*v.mat.Inc]
+//@ ensures same(v.mat.Data[i*v.mat.Inc], val)
+
+//@ func VecDense.Zero props: C04 C07(safety)
+//@ requires wfVD(v)
+//@ writes v.mat.Data[i*v.mat.Inc] for i in 0..v.mat.N
+//@ ensures forall(i, 0, v.mat.N, same(v.mat.Data[i*v.mat.Inc], float64(0)))
+
+// reuseAsZeroed: receiver sizing rule with zeroed contents. An empty receiver
+// becomes a vector of length r with increment 1; a sized receiver must already
+// have length r and keeps its storage and increment.
+
+//@ func VecDense.reuseAsZeroed props: C04 C07(safety)
+//@ requires wfVD(v) && r >= 0
+//@ valid r != 0 && (v.mat.Inc == 0 || r == v.mat.N)
+//@ panics iff !valid
+//@ modifies v
+//@ writes v.mat.Data[k] for k in 0..r if v.mat.Inc == 0 ; v.mat.Data[i*v.mat.Inc] for i in 0..v.mat.N
+//@ ensures wfVD(v) && v.mat.N == r
+//@ ensures old(v.mat.Inc) != 0 ==> sameSlice(v.mat.Data, old(v.mat.Data)) && v.mat.Inc == old(v.mat.Inc)
+//@ ensures old(v.mat.Inc) == 0 ==> v.mat.Inc == 1 && len(v.mat.Data) == r
+//@ ensures forall(i, 0, r, same(v.mat.Data[i*v.mat.Inc], float64(0)))
+
+// asGeneral / asDense: the vector as an N x 1 matrix over the same data.
+
+//@ func VecDense.asGeneral props: C04 C07(safety)
+//@ requires v != nil
+//@ writes nothing
+//@ ensures result.Rows == v.mat.N && result.Cols == 1 && result.Stride == v.mat.Inc && sameSlice(result.Data, v.mat.Data)
+
+//@ func VecDense.asDense props: C04 C07(safety)
+//@ requires wfVD(v)
+//@ writes nothing
+//@ ensures fresh(result) && result.mat.Rows == v.mat.N && result.mat.Cols == 1 && result.mat.Stride == v.mat.Inc && sameSlice(result.mat.Data, v.mat.Data)
+//@ ensures result.capRows == v.mat.N && result.capCols == 1
+
+// zero / useZeroed: storage helpers of the reuseAs* family.
+
+//@ func zero props: C04 C07(safety)
+//@ writes f[k] for k in 0..len(f)
+//@ ensures forall(k, 0, len(f), same(f[k], float64(0)))
+
+//@ func useZeroed props: C04 C07(safety)
+//@ requires l >= 0
+//@ writes f[k] for k in 0..l if l <= cap(f)
+//@ ensures len(result) == l && forall(k, 0, l, same(result[k], float64(0)))
+//@ ensures l <= cap(old(f)) ==> result.rid == f.rid && result.off == f.off
+//@ ensures l > cap(old(f)) ==> fresh(result)
